@@ -12,6 +12,7 @@
    What is not proved in Coq (trusted, see DESIGN.md): that the Van Loan functional of the labelled
    chain IS the k-th moment of the reward integrals of the path measure (Van Loan 1978); the
    floating-point accuracy of the SciPy backend (observed by the numeric correspondence stream). *)
+From Coq Require Import Reals.
 From mathcomp Require Import all_ssreflect all_algebra.
 From PG Require Import proofs.ExpLaws.
 Set Implicit Arguments. Unset Strict Implicit. Unset Printing Implicit Defensive.
@@ -69,3 +70,40 @@ Theorem C01_laws_consistent : forall R : comRingType,
     & forall m n (A : 'M[R]_m) (B : 'M[R]_n) (P : 'M[R]_(m, n)), A *m P = P *m B -> expm m A *m P = P *m expm n B].
 Proof. exact: laws_consistent. Qed.
 Print Assumptions C01_laws_consistent.
+
+(* ------------------------------------------------------------------------------------------------
+   Unconditional over the reals: the laws E0-E2 (and positivity) are theorems about the real matrix
+   exponential mexp (analysis/MExp.v: entrywise limit of the exponential series), so the statements
+   above hold for the matrix exponential itself, not only "given ExpLaws". *)
+From PG Require Import analysis.Rstruct analysis.RSums analysis.MExp analysis.MExpLaws.
+
+Theorem C01_moments_transfer_along_lumping_real :
+  forall m n (P : 'M[R]_(m, n)) (SL : 'M[R]_m) (SC : 'M[R]_n) (RL : nat -> 'M[R]_m) (RC : nat -> 'M[R]_n)
+         (k : nat) (aL : 'rV[R]_m) (eC : 'cV[R]_n) (t : R),
+    SL *m P = P *m SC -> (forall i, (i < k)%N -> RL i *m P = P *m RC i) ->
+    aL *m vltr (k:=k) (mexp (t *: vl SL RL k)) *m (P *m eC)
+    = (aL *m P) *m vltr (k:=k) (mexp (t *: vl SC RC k)) *m eC.
+Proof. by move=> *; apply: real_mk_lumping. Qed.
+Print Assumptions C01_moments_transfer_along_lumping_real.
+
+Theorem C01_epoch_product_transfers_real :
+  forall m n (P : 'M[R]_(m, n)) (eps : seq (R * 'M[R]_m * 'M[R]_n)) (aL : 'rV[R]_m) (eC : 'cV[R]_n),
+    (forall x, x \in eps -> x.1.2 *m P = P *m x.2) ->
+    aL *m epoch_prodL (fun n : nat => @mexp n) eps *m (P *m eC)
+    = (aL *m P) *m epoch_prodC (fun n : nat => @mexp n) eps *m eC.
+Proof. by move=> *; apply: real_lumping_product_cdf. Qed.
+Print Assumptions C01_epoch_product_transfers_real.
+
+Theorem C01_regularisation_invariant_real :
+  forall n (a : 'rV[R]_n) (S Rw : 'M[R]_n) (lam t t' : R), t' * lam = t ->
+    a *m ursubmx (mexp (t *: vl1 S Rw)) *m (const_mx 1 : 'cV_n)
+    = lam *: (a *m ursubmx (mexp (t' *: block_mx (lam *: S) Rw 0 (lam *: S))) *m (const_mx 1 : 'cV_n)).
+Proof. by move=> *; apply: (m1_regularisation (expm := fun n : nat => @mexp n) (@mexp_intertwine)). Qed.
+Print Assumptions C01_regularisation_invariant_real.
+
+Theorem C01_real_exponential_satisfies_the_laws :
+  [/\ forall n, mexp (0 : 'M[R]_n) = 1%:M,
+      forall n (A B : 'M[R]_n), A *m B = B *m A -> mexp (A + B) = mexp A *m mexp B
+    & forall m n (A : 'M[R]_m) (B : 'M[R]_n) (P : 'M[R]_(m, n)), A *m P = P *m B -> mexp A *m P = P *m mexp B].
+Proof. exact: real_mexp_laws. Qed.
+Print Assumptions C01_real_exponential_satisfies_the_laws.
